@@ -499,3 +499,66 @@ func isLoopHeader(b *ssa.BasicBlock) bool {
 	}
 	return false
 }
+
+// notFirstFlag: a boolean carried by the loop at hdr that is false when the loop is entered and set
+// to true on every way round it (`first := true ... first = false` reads as its negation at the use):
+// "this is not the first iteration". The phi, and whether the flag is the negated form (true on
+// entry, false afterwards).
+func notFirstFlag(hdr *ssa.BasicBlock) (flag *ssa.Phi, negated bool) {
+	lookIn := []*ssa.BasicBlock{hdr}
+	for _, blk := range lookIn {
+		for _, ins := range blk.Instrs {
+			phi, ok := ins.(*ssa.Phi)
+			if !ok {
+				break
+			}
+			if !isBoolType(phi.Type()) {
+				continue
+			}
+			entry, round := -1, -1 // 0 false, 1 true, 2 mixed
+			for ei, e := range phi.Edges {
+				k, isC := e.(*ssa.Const)
+				if !isC || k.Value == nil {
+					entry, round = 2, 2
+					break
+				}
+				v := 0
+				if k.Value.String() == "true" {
+					v = 1
+				}
+				slot := &entry
+				if blk.Dominates(blk.Preds[ei]) {
+					slot = &round
+				}
+				if *slot == -1 {
+					*slot = v
+				} else if *slot != v {
+					*slot = 2
+				}
+			}
+			if entry == 0 && round == 1 {
+				return phi, false
+			}
+			if entry == 1 && round == 0 {
+				return phi, true
+			}
+		}
+	}
+	return nil, false
+}
+
+// condMentions: the condition contains the named boolean.
+func condMentions(c *Cond, name string) bool {
+	if c == nil {
+		return false
+	}
+	if c.Kind == CBool && c.Name == name {
+		return true
+	}
+	for _, s := range c.Sub {
+		if condMentions(s, name) {
+			return true
+		}
+	}
+	return false
+}
